@@ -87,6 +87,7 @@ class Contract:
         self.witness = None
         self.lemmas = {l.id: l for l in lemmas}
         self.facts = list(facts)  # lemma instances offered to every obligation of a path where they can be evaluated
+        self.stop_after = None  # cut point: verification of the function ends after this statement (text prefix)
 
 
 # ------------------------------------------------------------------------------------------------
@@ -191,6 +192,13 @@ def make_value(spec, name, st, inputs):
                 inputs["%s.has.%s" % (name, k)] = ("bool", p)
                 d.pres[k] = p
         return st.alloc(d)
+    if isinstance(spec, tuple) and spec and spec[0] == "node":
+        o = HObj(spec[1])
+        for k, vs in spec[2].items():
+            o.attrs[k] = make_value(vs, "%s_%s" % (name, k), st, inputs)
+        return st.alloc(o)
+    if isinstance(spec, tuple) and spec and spec[0] == "list":
+        return st.alloc(HList([make_value(vs, "%s_%d" % (name, i), st, inputs) for i, vs in enumerate(spec[1])]))
     if isinstance(spec, tuple) and spec and spec[0] == "const":
         return Const(spec[1])
     if isinstance(spec, tuple) and spec and spec[0] == "native":
@@ -355,6 +363,7 @@ def verify_function(contract, registry, only_cases=None):
         eng = VEngine(registry, label, contract)
         eng.loop_specs = contract.loops
         eng.spec_defs = contract.defs
+        eng.stop_after = contract.stop_after
         fors = sorted((n for n in ast.walk(node) if isinstance(n, ast.For)), key=lambda n: (n.lineno, n.col_offset))
         eng.loop_ordinals = {id(n): k + 1 for k, n in enumerate(fors)}
         eng.ghost_hooks = contract.ghosts
@@ -472,6 +481,9 @@ def verify_function(contract, registry, only_cases=None):
                     raise Unsupported("loop control escaped function body")
             rep.paths += n_ret
             rep.cases[case.name] = {"return_paths": n_ret, "forks": eng.n_forks, "pruned": eng.n_pruned}
+            if contract.stop_after and not eng.stop_fired:
+                ob = eng.oblige("anchor", st, z3.BoolVal(False), "cut point not reached: %s" % contract.stop_after)
+                ob.status, ob.reason = "undecided", "anchor lost"
             # ghost anchors
             for key in contract.ghosts:
                 names = [nm for nm, _ in contract.ghosts[key]]
